@@ -18,7 +18,7 @@ import textgen
 sys.path.insert(0, os.path.join(fw.VERIF, "translators"))
 import py2lean_quote  # noqa
 
-LEAN_PROPS = ["NmlVerif.Props.C01", "NmlVerif.Props.C01Text", "NmlVerif.Props.C01Parse"]
+LEAN_PROPS = ["NmlVerif.Props.C01", "NmlVerif.Props.C01Text", "NmlVerif.Props.C01Parse", "NmlVerif.Props.C01E2E"]
 LEVEL = "proof"
 RULE = ("for every one of the 199 binding classes: random objects through the real constructors (every own and inherited "
         "member set at least once per class per run; strings over an alphabet over-representing < > & both quote kinds newline ]]> "
@@ -45,7 +45,10 @@ ASSUMPTIONS = [
 
 def regenerate(ctx):
     ctx.ir = bindgen.IR()
-    return list(ctx.ir.gaps) + py2lean_quote.regenerate(fw.REPO, fw.LEAN)
+    info = {}
+    gaps = py2lean_quote.regenerate(fw.REPO, fw.LEAN, info)
+    ctx.extra.update(info)
+    return list(ctx.ir.gaps) + gaps
 
 
 def floats_equal_15(a, b):
@@ -192,12 +195,51 @@ def flush(ctx, ir, lines, pending):
             # text level: model export + model serialiser vs the bytes the real export writes; model reader vs lxml
             if case.get("text0") is not None:
                 text_streams(ctx, tb, {"cls": case["cls"], "desc": case["desc"]}, textgen.tnode_of_tree(mt), case["text0"])
+                e2e_streams(ctx, ir, tb, case)
         else:
             got = bindgen.dec_obj(ir, r["ok"])
             d = compare_desc(expect, got, case["cls"]) or compare_desc(got, expect, case["cls"])
             if d:
                 ctx.disagree("binding-build", case, expect, d)
     tb.flush(ctx)
+
+
+def e2e_streams(ctx, ir, tb, case):
+    """the very functions of the end-to-end theorem `c01_read_write`: `writeObj` (object tree -> characters) must give the
+    bytes the real export writes; `readObj` (characters -> object tree, by the XML reader model and the regenerated name
+    table) applied to the real text must give the object the real build gives (= the original description)"""
+    cls, desc, text, tag = case["cls"], case["desc"], case["text0"], case["tag"]
+    short = {"cls": cls, "desc": desc}
+    known = getattr(ir, "_xml_names", None)
+    if known is None:
+        known = {"neuroml"}
+        for c in ir.table["classes"]:
+            known |= {a["xml"] for a in c.get("expAttrs", []) if a["fmt"] != "xsitype"}
+            known |= {k["tag"] for k in c.get("expChildren", []) if k["kind"] != "any"}
+        ir._xml_names = known
+    if tag not in known or tag not in ir.ix:
+        # the name table holds the element names the bindings write; a class's own default name that no parent uses
+        # (e.g. basePyNNCell) is not one of them: the end-to-end functions are defined on table names only
+        ctx.count("e2e-skipped-root-tag")
+        return
+    ctx.count("e2e-cases")
+
+    def w(r):
+        if "skip" in r:
+            ctx.count("e2e-skipped-root-tag")
+        elif r.get("r") != text:
+            ctx.disagree("e2e-write", short, text[:600], (r.get("r") or str(r))[:600])
+    tb.add({"op": "write_obj", "fuel": 12, "tag": ir.ix[tag], "obj": bindgen.enc_obj(ir, desc)}, w)
+
+    def rd(r):
+        if "ok" not in r:
+            ctx.disagree("e2e-read", short, "ok", r)
+            return
+        got = bindgen.dec_obj(ir, r["ok"])
+        d = compare_desc(desc, got, cls) or compare_desc(got, desc, cls)
+        if d:
+            ctx.disagree("e2e-read", short, desc, d)
+    tb.add({"op": "read_obj", "fuel": 12, "cls": ir.ix[cls], "s": text}, rd)
 
 
 def text_streams(ctx, tb, case, mtree, text, extra=None):
@@ -262,6 +304,8 @@ CORPUS = [
     {"cls": "NeuroMLDocument", "kw": {"id": "d", "notes": "  a\n\tb ]]> <![CDATA[ &amp; "}},
     {"cls": "NeuroMLDocument", "kw": {"id": "d", "notes": "   "}},                       # white space only: significant
     {"cls": "Point3DWithDiam", "kw": {"x": 0.0, "y": -0.0, "z": 1e-07, "diameter": 1e16}},
+    {"cls": "Point3DWithDiam", "kw": {"x": float("inf"), "y": float("-inf"), "z": float("nan"), "diameter": 1.0}},   # xs:double
+    {"cls": "SegmentParent", "kw": {"segments": 0, "fraction_along": float("nan")}},                                # xs:float
     {"cls": "Connection", "kw": {"id": 0, "pre_cell_id": "../p/0/c", "post_cell_id": "../p/1/c", "pre_fraction_along": 1e-07,
                                  "post_fraction_along": 2e-06}},
 ]
